@@ -655,9 +655,10 @@ static Type *func_params(Token **rest, Token *tok, Type *ty) {
   return ty;
 }
 
-// array-dimensions = ("static" | "restrict")* const-expr? "]" type-suffix
+// array-dimensions = ("static" | type-qualifier)* const-expr? "]" type-suffix
 static Type *array_dimensions(Token **rest, Token *tok, Type *ty) {
-  while (equal(tok, "static") || equal(tok, "restrict"))
+  while (equal(tok, "static") || equal(tok, "restrict") || equal(tok, "__restrict") ||
+         equal(tok, "__restrict__") || equal(tok, "const") || equal(tok, "volatile"))
     tok = tok->next;
 
   if (equal(tok, "]")) {
